@@ -44,6 +44,9 @@ CHECKS = {
     "C19": dict(level="fault_enumeration", technique="deterministic simulation with fault injection on external data (two-phase runs; importer file with seeded gaps / extras / duplicates / shuffles; per-step state, error-type and file-hash oracles)",
                 text="phase 1 produces a real output database, rsim.importer mutates it into an importer file (gaps at chosen or - thorough - all (agent, epoch) cells, dropped agents, 1-20 unrelated agents, duplicated and shuffled rows), phase 2 runs with targets/sensors/observations imported; imported states must be bit-equal to the rows, a gap must stop the run with MissingEphemerisError at that step and never otherwise, imported observations must reach exactly their target's update, the file hash must not change",
                 note="importer schema = output schema of the same code; run as root so read-only-ness is judged by file hash, not permissions"),
+    "C20": dict(level="exploration", technique="deterministic simulation (noise-off end-to-end IOD runs; radar sites placed by inverse geometry under the ground track so that the stored and the current observation are a drawn fraction of a period apart; truth-state oracle)",
+                text="claimed for the orbit-determination clause: noise-off two-body runs in which an unplanned impulse arms IOD and the next radar observation triggers determineNewEstimateState on the stored history; the returned state must equal the truth, radar observations must invert to the true position, and the arcs actually solved must be reproduced by rsim's Kepler propagation",
+                note="the Lambert clause over all arcs is a pure boundary-value statement and is not claimed (only visited arcs are checked); velocity tolerance includes the 40 us resolution of the Julian dates the time of flight is taken from"),
 }
 
 NA = {
